@@ -217,7 +217,7 @@ MODELLED = {
             "pkg/generator/manipulator.go"],
     "C11": F_PARSER,
     "C12": ["pkg/parser/parser.go"] + F_RUNNER,
-    "C13": F_RUNNER + ["pkg/util/import.go", "pkg/parser/parser.go"],
+    "C13": F_RUNNER + ["pkg/util/import.go", "pkg/parser/parser.go", "pkg/logger/logger.go"],
     "C14": F_PARSER + F_NOTATION + F_BUILDER + ["pkg/builder/method.go", "pkg/util/import.go"] + F_HOOKS,
     "C15": F_RUNNER + ["pkg/parser/parser.go:NewParser", "pkg/parser/parser.go:overlayForPreviousOutput"],
     "C16": ["pkg/builder/assignment.go:assignmentBuilder.sliceToSlice", "pkg/builder/assignment.go:assignmentBuilder.structFieldAndStruct",
